@@ -161,6 +161,15 @@ impl Report {
         }
     }
     pub fn declare(&mut self, clause: &'static str) { self.clause_checks.entry(clause).or_insert(0); }
+    /// merge the results of a worker (parallel enumeration of disjoint parts of the input space)
+    pub fn merge(&mut self, o: Report) {
+        self.cases += o.cases;
+        self.nontrivial += o.nontrivial;
+        for (k, v) in o.clause_checks { *self.clause_checks.entry(k).or_insert(0) += v; }
+        for (k, v) in o.fail_counts { *self.fail_counts.entry(k).or_insert(0) += v; }
+        for f in o.failures { if self.failures.iter().filter(|x| x.0 == f.0).count() < 400 { self.failures.push(f); } }
+        for s in o.samples { if self.samples.len() < 8 { self.samples.push(s); } }
+    }
     pub fn to_json(&self) -> String {
         let mut s = String::new();
         s.push_str(&format!("{{\"unit\":{},\"cases\":{},\"nontrivial\":{},", jstr(&self.unit), self.cases, self.nontrivial));
